@@ -534,7 +534,7 @@ def grid(model):
             EnumVal("Equals", ["true"]), EnumVal("Equals", ["null"]), EnumVal("Equals", ["any"]), EnumVal("Equals", ["3"]), EnumVal("Equals", ["2.5"]), EnumVal("Equals", ["T10"]), EnumVal("Equals", [""]),
             EnumVal("Not", [EnumVal("Equals", ["false"])]),
             # floats with an integral value, strings with the list separator
-            EnumVal("EqualsFloat", [1.0]), EnumVal("GreaterThanFloat", [3.0]), EnumVal("EqualsFloat", [0.000001]), EnumVal("LessThanFloat", [1.5e20]), EnumVal("GreaterThanOrEqualFloat", [-2.5e-7]), EnumVal("LessThanOrEqualFloat", [-2.0]), EnumVal("Equals", ["a|b"])]
+            EnumVal("Equals", ["O'Brien"]), EnumVal("EqualsFloat", [1.0]), EnumVal("GreaterThanFloat", [3.0]), EnumVal("EqualsFloat", [0.000001]), EnumVal("LessThanFloat", [1.5e20]), EnumVal("GreaterThanOrEqualFloat", [-2.5e-7]), EnumVal("LessThanOrEqualFloat", [-2.0]), EnumVal("Equals", ["a|b"])]
     tsos = []
     for name, fn in sorted(model.tso_ctor.items()):
         try:
@@ -569,7 +569,7 @@ def grid(model):
         doms = []
         for t in ftys:
             if t in ("&'astr", "&str"):
-                doms.append(["x", "some id"] + (["?q", "a\\", "NONE"] if name in ("Text", "Id") else []) if name not in ("AnnotationVariable", "DataVariable", "DataSetVariable", "ResourceVariable", "TextVariable", "SubStoreVariable", "KeyVariable", "KeyValueVariable", "TextRelation") else ["x"])
+                doms.append(["x", "some id"] + (["?q", "a\\", "NONE", "don't", "it's 'so'"] if name in ("Text", "Id") else []) if name not in ("AnnotationVariable", "DataVariable", "DataSetVariable", "ResourceVariable", "TextVariable", "SubStoreVariable", "KeyVariable", "KeyValueVariable", "TextRelation") else ["x"])
             elif t == "SelectionQualifier":
                 doms.append(quals)
             elif t == "AnnotationDepth":
